@@ -362,6 +362,15 @@ printf("debug> #if: parse_defined()=%d\n", n);
 
       *num = n;
 
+      // Only the level that was opened by the '(' (it runs at the lowest
+      // precedence) takes the ')'.  A level that was entered for a higher
+      // precedence operator inside the group hands it back, otherwise the
+      // group's own level would not see that the group has ended.
+      if (precedence != PREC_OR)
+      {
+        tokens_push(asm_context, token, token_type);
+      }
+
       return 0;
     }
 
